@@ -442,7 +442,8 @@ class Interp:
                         if nb:
                             if any(b is None for b in self.rd(a[1], a[2], nb)):
                                 bad = True
-                if not bad and len(self.cuts) == saved_cuts:
+                if not bad:
+                    # affine apart from the cuts made inside (a 'one round' helper that calls the S-box)
                     if sh:
                         fr.vals[i["id"]] = ("b", rv[:n])
                     return
